@@ -221,6 +221,7 @@ class CrashWorld(World):
         self._last_key = None
         self.gstmt = 0  # statements of the live store since the run began
         self.kill_at = None  # (global statement number, mode): really die there (selftest crashstub)
+        self.allow_reuse = True  # snapshot reuse inside a transaction (off in page-cache-spill runs)
         self.fault_next = False  # arm a failing commit for the next single-event operation
         self.diagnose = False  # diagnostic replay: compare the live view with the model after every op
         self.strict = True  # raise on the first failing crash point (C06); C18 turns this off
@@ -298,7 +299,7 @@ class CrashWorld(World):
             # Sampling heuristic (not an oracle): if every statement since the last hashed snapshot ran
             # inside an open transaction, SQLite has written nothing that a reopened process would see
             # (cache spills are frames without a commit marker), so the previous snapshot stands.
-            self.crash_point("stmt", reuse=not self._files_dirty)
+            self.crash_point("stmt", reuse=self.allow_reuse and not self._files_dirty)
             self._files_dirty = False
         # what statement k (about to run) does to the files, for the boundary before statement k+1
         if head.startswith(("BEGIN", "SAVEPOINT")):
@@ -380,8 +381,18 @@ class CrashWorld(World):
         cb, seams.STMT.callback = seams.STMT.callback, None
         probe = None
         try:
-            w.open()
-            d = w.dump()
+            try:
+                w.open()
+                d = w.dump()
+            except Exception as e:
+                # the file a crashed process left behind cannot even be opened / read by the real storage class
+                self.dumps[key] = (None, {}, {}, "reopening the crashed database raised %r" % (e,))
+                self.stats["snapshots_reopened"] += 1
+                try:
+                    w.close(clean=False)
+                except Exception:
+                    pass
+                return self.dumps[key]
             # recovery probe: the reopened store must behave like a store holding exactly that state --
             # a bucket created now is born empty (rows orphaned by a half-done operation must not resurface)
             try:
@@ -419,7 +430,10 @@ class CrashWorld(World):
         done = []
         for pt in self.pending:
             hD, summ, dump, probe = self._dump_snapshot(pt["key"])
-            best, tag, msg = m.find(hD, pt["n"], pt["n_ret"], pt["d"], self.lazy)
+            if hD is None:
+                best, tag, msg = None, "prefix", probe
+            else:
+                best, tag, msg = m.find(hD, pt["n"], pt["n_ret"], pt["d"], self.lazy)
             if best is not None and probe:
                 best, tag, msg = None, "recovery_probe", probe
                 self.stats["recovery_probe_failed"] += 1
